@@ -584,6 +584,10 @@ pub enum Event {
         /// the handle is dropped by stack unwinding (the caller panics while holding it)
         #[serde(default)]
         unwinding: bool,
+        /// while the handle is dropped the kernel refuses every `madvise` and every `mprotect`
+        /// that would change nothing (C15: the wipe must not hinge on such a call)
+        #[serde(default)]
+        relfault: bool,
     },
     Alloc { aslot: usize, size: usize },
     Dealloc { aslot: usize },
@@ -1206,7 +1210,8 @@ impl World for MemWorld {
             let j = (run % C19_PLANS_PER_WALK) as u32;
             let plan = match j {
                 0 => PlanCfg::None,
-                1..=16 => PlanCfg::RefuseFrom { k: j, errno: if j % 2 == 0 { libc::EPERM } else { libc::ENOMEM } },
+                // every errno mlock(2) documents for a refusal, persistently from the k-th request on
+                1..=16 => PlanCfg::RefuseFrom { k: j, errno: [libc::EAGAIN, libc::ENOMEM, libc::EPERM][(j % 3) as usize] },
                 17..=32 => PlanCfg::RefuseOnce { k: j - 16, errno: libc::EAGAIN },
                 33..=47 => PlanCfg::Budget { pages: j - 33 },
                 _ => PlanCfg::RefuseAllFrom { k: j - 47, errno: libc::EPERM },
@@ -1214,9 +1219,10 @@ impl World for MemWorld {
             (plan, run / C19_PLANS_PER_WALK)
         } else if prop == "C15" && rng.chance(1, 4) {
             // C15 also runs under C19's fault plans (error paths release memory too)
-            let plan = match rng.below(3) {
-                0 => PlanCfg::RefuseFrom { k: 1 + rng.below(8) as u32, errno: libc::ENOMEM },
+            let plan = match rng.below(4) {
+                0 => PlanCfg::RefuseFrom { k: 1 + rng.below(8) as u32, errno: *rng.pick(&[libc::ENOMEM, libc::EAGAIN, libc::EPERM]) },
                 1 => PlanCfg::RefuseOnce { k: 1 + rng.below(8) as u32, errno: libc::EAGAIN },
+                2 => PlanCfg::RefuseAllFrom { k: 1 + rng.below(8) as u32, errno: libc::EPERM },
                 _ => PlanCfg::Budget { pages: rng.below(6) as u32 },
             };
             (plan, run)
@@ -1295,7 +1301,14 @@ impl World for MemWorld {
             _ => {}
         }
         // lengths above glibc's mmap threshold (128 KiB): only for containers that are not locked
-        let pick_huge = |rng: &mut Rng| -> usize { *rng.pick(&[65536usize, 65537, 131072, 131073, 140000, 196608, 200000, 262144, 262145]) };
+        // ("big" runs: one in four of those is beyond 1 MiB / 256 pages, where a page-count held in a byte wraps)
+        let pick_huge = |rng: &mut Rng| -> usize {
+            if big && rng.chance(1, 4) {
+                *rng.pick(&[1048576usize, 1048577, 1052672, 1056768, 1060000, 2097152, 2097153])
+            } else {
+                *rng.pick(&[65536usize, 65537, 131072, 131073, 140000, 196608, 200000, 262144, 262145])
+            }
+        };
         let pick_len = |rng: &mut Rng| -> usize {
             match rng.below(10) {
                 0..=6 => *rng.pick(&ARRAY_LENS),
@@ -1385,7 +1398,7 @@ impl World for MemWorld {
             }
             4 => Some(Event::Write { slot: *rng.pick(&live), fill: rng.next_u64() % 1000 }),
             5 => Some(Event::Read { slot: *rng.pick(&live) }),
-            6 => Some(Event::Drop { slot: *rng.pick(&live), unwinding: rng.chance(1, 4) }),
+            6 => Some(Event::Drop { slot: *rng.pick(&live), unwinding: rng.chance(1, 4), relfault: self.cfg.prop == "C15" && self.cfg.plan == PlanCfg::None && rng.chance(1, 5) }),
             7 => {
                 let aslot = self.allocs.iter().position(|a| a.is_none()).unwrap();
                 Some(Event::Alloc { aslot, size: if rng.chance(1, 2) { *rng.pick(&[1usize, 8, 4095, 4096, 4097, 8192, 8193]) } else { 1 + rng.usize_below(3 * 4096) } })
@@ -1649,7 +1662,7 @@ impl World for MemWorld {
                     }
                 }
             }
-            Event::Drop { slot, unwinding } => {
+            Event::Drop { slot, unwinding, relfault } => {
                 let slot = slot % SLOTS;
                 let mut reg = match self.slots[slot].take() {
                     Some(r) => r,
@@ -1659,6 +1672,8 @@ impl World for MemWorld {
                 path_hint = if reg.hist.first().map(|s| s.as_str()) == Some("clone") { "clone_drop" } else { "drop" };
                 let h = reg.h.take();
                 let unwinding = *unwinding;
+                shim::set_relfault(*relfault);
+                let fired_before = shim::relfault_fired();
                 shim::arm();
                 let r = if unwinding {
                     // the caller panics while it still owns the container: the drop runs during unwinding
@@ -1674,7 +1689,11 @@ impl World for MemWorld {
                     guarded(move || drop(h))
                 };
                 shim::disarm();
+                shim::set_relfault(false);
                 out.op();
+                if shim::relfault_fired() > fired_before {
+                    out.fault("release_time_syscall_refused");
+                }
                 if unwinding {
                     out.fault("caller_panic_while_owning");
                 }
